@@ -86,6 +86,18 @@ class Push:
                 self.sim.o.subchannel_closed(1, sc)
             else:
                 self.sim.o.subchannel_unregisterProducer(sc)
+        others = [n for n in sorted(self.sim.subs) if n != self.name]
+        if self.sim.allow_other_quit and self.sim.quits < 1 and others and self.sim.decide("another_producer_quits_during_this_turn"):
+            # what this producer's turn does (say, the application finishing a request) makes ANOTHER subchannel's producer unregister / its
+            # subchannel close - possibly one that is still waiting for its own turn in the very drain that is going on
+            self.sim.quits += 1
+            victim = others[-1] if self.sim.decide("victim_is_last") else others[0]
+            sc, p, kind = self.sim.subs.pop(victim)
+            self.sim.log.append((victim, "quit-during-%s" % self.name))
+            if self.sim.decide("quit_by_close"):
+                self.sim.o.subchannel_closed(1, sc)
+            else:
+                self.sim.o.subchannel_unregisterProducer(sc)
 
     def stopProducing(self):
         self.signals.append("stop")
@@ -160,6 +172,7 @@ class Sim:
         self.taken = []
         self.quits = 0
         self.allow_reentrant_resume = False
+        self.allow_other_quit = False
         self.reentrant_resumes = 0
         self.transport_paused = True    # what the transport last told us (no connection = paused)
 
@@ -284,15 +297,16 @@ class Backpressure(Job):
                  "_get_next_unpaused_producer/use_connection/stop_using_connection/queue_and_send_record/_check_invariants", "_dilation.outbound.PullToPush"]
     shadows = []
 
-    def __init__(self, k, first=(), reentrant_resume=False):
-        self.k, self.first, self.reentrant_resume = k, tuple(first), reentrant_resume
-        self.name = "outbound_backpressure%s_k%d_%s" % ("_rr" if reentrant_resume else "", k, "-".join(map(str, first)) or "all")
+    def __init__(self, k, first=(), reentrant_resume=False, other_quit=False):
+        self.k, self.first, self.reentrant_resume, self.other_quit = k, tuple(first), reentrant_resume, other_quit
+        self.name = "outbound_backpressure%s_k%d_%s" % ("_rr" if reentrant_resume else ("_oq" if other_quit else ""), k, "-".join(map(str, first)) or "all")
         self.bounds = dict(steps=k, first_action_indices=list(first), producers="<= 3, push or pull", reentrancy="every producer turn may write; every send_record may make the transport pause from inside the call")
         self.must_reach = ()
 
     def scenario(self):
         sim = Sim()
         sim.allow_reentrant_resume = self.reentrant_resume
+        sim.allow_other_quit = self.other_quit
         sched = []
         eng().inputs["sched"] = sched
         eng().inputs["decisions"] = sim.taken
@@ -332,6 +346,7 @@ class Backpressure(Job):
     def replay(self, inp, label):
         sim = Sim(decisions=inp["decisions"])
         sim.allow_reentrant_resume = getattr(self, "reentrant_resume", False)
+        sim.allow_other_quit = getattr(self, "other_quit", False)
         for a in inp["sched"]:
             a = tuple(a)
             if a not in sim.enabled():
@@ -498,6 +513,12 @@ def jobs(tier):
     for a0 in range(3):
         for a1 in range(6):
             J.append(Backpressure(k - 1, (a0, a1), reentrant_resume=True))
+    # three producers registered (first three actions: push/pull in every combination), then anything: during one producer's turn another producer,
+    # possibly one still waiting for its turn in the same drain, may unregister or have its subchannel closed
+    for a0 in range(2):
+        for a1 in range(2):
+            for a2 in range(2):
+                J.append(Backpressure(k, (a0, a1, a2), other_quit=True))
     J += [Rotation(2), Rotation(3), Rotation(4)]
     for a0 in range(11):
         J.append(InboundPause(5 if thorough else 4, (a0,)))
